@@ -56,7 +56,7 @@ manifest = {
     "engines": [{"name": k, "path": "/verif/dst", "serves_properties": v, "kind_free_text": "deterministic simulation (virtual-time asyncio loop, tape-driven faults and schedules)"} for k, v in engines.items()],
     "checks": checks,
     "not_applicable": na,
-    "notes": "Exit codes of every check: 0 held, 1 violation (VIOLATION line + replay file), 2 harness error. known_findings.json lists open/fixed findings (open ones are printed as KNOWN-FINDING lines; fixed ones are replayed as regression cases). VERIF_SEED, VERIF_TIER, VERIF_BUDGET_S, VERIF_JOBS are honoured. Self-tests: ./check selftest-determinism (same seeds, fresh interpreters, two PYTHONHASHSEEDs, two worker counts), ./check selftest-reference (reference ASH endpoint against itself under faults). Sensitivity: tools/mutants.py <ID> (hand mutants), tools/seeded.py run <name> <ID> (108 independent seeded changes under /verif/seeded, tools/seeded_all.sh runs them all), tools/revert_fixes.py (each fix: commit reverted in a scratch copy must be detected again), tools/automut.py <file-key> (AST mutation sweep). The commits in /repo on top of the pinned snapshot are fix: repairs of genuine defects only; no hooks.",
+    "notes": "Exit codes of every check: 0 held, 1 violation (VIOLATION line + replay file), 2 harness error. known_findings.json lists open/fixed findings (open ones are printed as KNOWN-FINDING lines; fixed ones are replayed as regression cases). VERIF_SEED, VERIF_TIER, VERIF_BUDGET_S, VERIF_JOBS are honoured. Self-tests: ./check selftest-determinism (same seeds, fresh interpreters, two PYTHONHASHSEEDs, two worker counts), ./check selftest-reference (reference ASH endpoint against itself under faults). Sensitivity: tools/mutants.py <ID> (hand mutants), tools/seeded.py run <name> <ID> (234 independent seeded changes under /verif/seeded, tools/seeded_all.sh runs them all), tools/revert_fixes.py (each fix: commit reverted in a scratch copy must be detected again), tools/automut.py <file-key> (AST mutation sweep). The commits in /repo on top of the pinned snapshot are fix: repairs of genuine defects only; no hooks.",
 }
 with open(os.path.join(VERIF, "MANIFEST.json"), "w") as f:
     json.dump(manifest, f, indent=1)
